@@ -41,7 +41,8 @@ pub fn query_get_previous_price(
     let prices = prices_response.unwrap();
     let latest_price = prices.last().unwrap();
 
-    if num_round_back > latest_price.round_id {
+    // round 0 is the placeholder of an empty history, never a submitted round
+    if num_round_back >= latest_price.round_id {
         return Err(StdError::generic_err("Not enough history"));
     }
 
